@@ -10,9 +10,12 @@ import (
 	"flag"
 	"fmt"
 	"os"
+	"runtime/debug"
 	"sort"
+	"sync/atomic"
 
 	v1 "k8s.io/api/core/v1"
+	metav1 "k8s.io/apimachinery/pkg/apis/meta/v1"
 	"k8s.io/apimachinery/pkg/util/sets"
 	"k8s.io/klog/v2"
 
@@ -21,13 +24,19 @@ import (
 	topologyv1alpha1 "volcano.sh/apis/pkg/apis/topology/v1alpha1"
 	"volcano.sh/volcano/pkg/scheduler/actions/allocate"
 	"volcano.sh/volcano/pkg/scheduler/api"
+	"volcano.sh/volcano/pkg/scheduler/cache"
 	"volcano.sh/volcano/pkg/scheduler/conf"
 	"volcano.sh/volcano/pkg/scheduler/framework"
+	vcmetrics "volcano.sh/volcano/pkg/scheduler/metrics"
 	"volcano.sh/volcano/pkg/scheduler/plugins/gang"
 	"volcano.sh/volcano/pkg/scheduler/plugins/predicates"
-	"volcano.sh/volcano/pkg/scheduler/uthelper"
 	"volcano.sh/volcano/pkg/scheduler/util"
 )
+
+func init() {
+	// what uthelper's init does: the kube-scheduler plugins used by predicates need their metrics
+	vcmetrics.InitKubeSchedulerRelatedMetrics()
+}
 
 type traceLeaf struct {
 	group int64   // tier-2 HyperNode it hangs under (1..G)
@@ -87,6 +96,14 @@ func klogDebug() {
 
 func runTrace(in []int64) []int64 {
 	lastTrace = nil
+	if os.Getenv("VERIF_C14_DEBUG") != "" {
+		defer func() {
+			if e := recover(); e != nil {
+				fmt.Fprintln(os.Stderr, "PANIC", e, string(debug.Stack()))
+				panic(e)
+			}
+		}()
+	}
 	if os.Getenv("VERIF_C14_DEBUG") == "2" {
 		klogDebug()
 	}
@@ -166,40 +183,126 @@ func runTrace(in []int64) []int64 {
 		pg = util.BuildPodGroupWithNetWorkTopologies("pg1", "c1", "", "q1", int32(t.minAvail), nil, schedulingv1.PodGroupInqueue, "hard", int(t.limit))
 	}
 	var pods []*v1.Pod
+	want := map[string]api.TaskStatus{} // pod name -> status to force in the cache (Binding / Allocated)
+	placed := 0
+	inputPlaced := map[string]bool{}
 	for i, p := range t.pods {
 		lbl := map[string]string{"volcano.sh/task-spec": fmt.Sprintf("role%d", p.role)}
 		name := fmt.Sprintf("p%d", i+1)
-		if p.running != 0 {
-			pods = append(pods, util.BuildPod("c1", name, nodeName(p.node), v1.PodRunning, api.BuildResourceList("2", "4G"), "pg1", lbl, nil))
-			continue
+		req := api.BuildResourceList("2", "4G")
+		switch p.running {
+		case 0:
+			pod := util.BuildPod("c1", name, "", v1.PodPending, req, "pg1", lbl, nil)
+			if p.node != 0 {
+				pod.Status.NominatedNodeName = nodeName(p.node)
+			}
+			pods = append(pods, pod)
+		case 1: // Running
+			pods = append(pods, util.BuildPod("c1", name, nodeName(p.node), v1.PodRunning, req, "pg1", lbl, nil))
+			placed++
+			inputPlaced[name] = true
+		case 2, 3, 4: // Bound (phase Pending with a node); Binding / Allocated are forced in the cache below
+			pods = append(pods, util.BuildPod("c1", name, nodeName(p.node), v1.PodPending, req, "pg1", lbl, nil))
+			placed++
+			inputPlaced[name] = true
+			if p.running == 3 {
+				want[name] = api.Binding
+			} else if p.running == 4 {
+				want[name] = api.Allocated
+			}
+		default: // Releasing: running and being deleted — not an allocated status
+			pod := util.BuildPod("c1", name, nodeName(p.node), v1.PodRunning, req, "pg1", lbl, nil)
+			now := metav1.Now()
+			pod.DeletionTimestamp = &now
+			pods = append(pods, pod)
 		}
-		pod := util.BuildPod("c1", name, "", v1.PodPending, api.BuildResourceList("2", "4G"), "pg1", lbl, nil)
-		if p.node != 0 {
-			pod.Status.NominatedNodeName = nodeName(p.node)
+	}
+
+	// the scheduler cache, filled the way uthelper does it (real cache, fake binder / evictor)
+	stop := make(chan struct{})
+	sc := cache.NewCustomMockSchedulerCache("verif-scheduler", util.NewFakeBinder(0), util.NewFakeEvictor(0),
+		&util.FakeStatusUpdater{}, nil, nil)
+	sc.Run(stop)
+	sc.WaitForCacheSync(stop)
+	for _, n := range nodes {
+		sc.AddOrUpdateNode(n)
+	}
+	for _, p := range pods {
+		sc.AddPod(p)
+	}
+	sc.AddPodGroupV1beta1(pg)
+	sc.AddQueueV1beta1(util.BuildQueue("q1", 1, nil))
+	for _, hni := range hnMap {
+		for _, m := range hni.HyperNode.Spec.Members {
+			if m.Type == topologyv1alpha1.MemberTypeHyperNode && m.Selector.ExactMatch != nil {
+				hni.Children.Insert(m.Selector.ExactMatch.Name)
+				hnMap[m.Selector.ExactMatch.Name].Parent = hni.Name
+			}
 		}
-		pods = append(pods, pod)
+	}
+	ready := new(atomic.Bool)
+	ready.Store(true)
+	sc.HyperNodesInfo = api.NewHyperNodesInfoWithCache(hnMap, byTier, real, ready)
+	// tasks the scheduler has placed but whose pods are not bound yet sit in the cache as
+	// Allocated / Binding (cache.AddBindTask); force those statuses on the cached tasks
+	for _, job := range sc.Jobs {
+		var todo []*api.TaskInfo
+		for _, task := range job.Tasks {
+			if _, ok := want[task.Name]; ok {
+				todo = append(todo, task)
+			}
+		}
+		for _, task := range todo {
+			job.UpdateTaskStatus(task, want[task.Name])
+		}
 	}
 
 	yes := true
-	test := uthelper.TestCommonStruct{
-		Name:                "verif C14 trace",
-		PodGroups:           []*schedulingv1.PodGroup{pg},
-		Pods:                pods,
-		Nodes:               nodes,
-		HyperNodesSetByTier: byTier,
-		HyperNodesMap:       hnMap,
-		HyperNodes:          real,
-		Queues:              []*schedulingv1.Queue{util.BuildQueue("q1", 1, nil)},
-		Plugins: map[string]framework.PluginBuilder{
-			predicates.PluginName: predicates.New, gang.PluginName: gang.New, ntaName: ntaNew},
-	}
+	framework.RegisterPluginBuilder(predicates.PluginName, predicates.New)
+	framework.RegisterPluginBuilder(gang.PluginName, gang.New)
+	framework.RegisterPluginBuilder(ntaName, ntaNew)
 	tiers := []conf.Tier{{Plugins: []conf.PluginOption{
 		{Name: gang.PluginName, EnabledJobOrder: &yes, EnabledJobReady: &yes, EnabledJobPipelined: &yes, EnabledJobStarving: &yes},
 		{Name: predicates.PluginName, EnabledPredicate: &yes},
 		{Name: ntaName, EnabledNodeOrder: &yes, EnabledHyperNodeOrder: &yes, EnabledHyperNodeGradient: &yes},
 	}}}
-	ssn := test.RegisterSession(tiers, nil)
-	defer test.Close()
+	ssn := framework.OpenSession(sc, tiers, nil)
+	defer func() {
+		framework.CloseSession(ssn)
+		framework.CleanupPluginBuilders()
+		close(stop)
+	}()
+
+	// correspondence: what recoverAllocatedHyperNode rebuilt at session open
+	roleOf := func(sj *api.SubJobInfo) (int64, bool) {
+		for _, task := range sj.Tasks {
+			if t.policy == 0 {
+				return 0, true
+			}
+			var r int64
+			fmt.Sscanf(task.Pod.Labels["volcano.sh/task-spec"], "role%d", &r)
+			return r, true
+		}
+		return 0, false
+	}
+	obs := tag(1)
+	type subRec struct{ role, rec int64 }
+	var subs []subRec
+	for _, job := range ssn.Jobs {
+		obs = append(obs, hnID(job.AllocatedHyperNode))
+		for _, sj := range job.SubJobs {
+			if r, ok := roleOf(sj); ok {
+				subs = append(subs, subRec{r, hnID(sj.AllocatedHyperNode)})
+			}
+		}
+	}
+	sort.Slice(subs, func(i, j int) bool { return subs[i].role < subs[j].role })
+	obs = append(obs, tag(2)...)
+	obs = append(obs, int64(len(subs)))
+	for _, sr := range subs {
+		obs = append(obs, sr.role, sr.rec)
+	}
+
 	if t.annot != 0 {
 		// a scheduler that has been running keeps the job's AllocatedHyperNode in its cache
 		// (cache.go:1741); annot = 0 is the restart case, where it is recovered from the pods
@@ -209,7 +312,11 @@ func runTrace(in []int64) []int64 {
 			}
 		}
 	}
-	test.Run([]framework.Action{allocate.New()})
+	conf.EnabledActionMap = map[string]bool{"allocate": true}
+	act := allocate.New()
+	act.Initialize()
+	act.Execute(ssn)
+	act.UnInitialize()
 
 	out := &traceOut{hnMap: encInfoMap(ssn.HyperNodes)}
 	ids := sortedIDs(ssn.RealNodesSet, hnID)
@@ -222,7 +329,9 @@ func runTrace(in []int64) []int64 {
 	placedOf := func(tasks map[api.TaskID]*api.TaskInfo) []int64 {
 		ns := []int64{}
 		for _, task := range tasks {
-			if api.AllocatedStatus(task.Status) && task.NodeName != "" {
+			// placed = already placed in the input (whatever allocated status it has) or bound by
+			// this action; a task left in Allocated by an uncommitted (pipelined) statement is not a bind
+			if task.NodeName != "" && api.AllocatedStatus(task.Status) && (task.Status != api.Allocated || inputPlaced[task.Name]) {
 				ns = append(ns, nodeID(task.NodeName))
 			}
 		}
@@ -256,13 +365,7 @@ func runTrace(in []int64) []int64 {
 		}
 	}
 	out.desc = desc
-	running := 0
-	for _, p := range t.pods {
-		if p.running != 0 {
-			running++
-		}
-	}
-	if t.policy == 1 && running > 0 && t.annot == 0 {
+	if t.policy == 1 && placed > 0 && t.annot == 0 {
 		out.sig = "C14-D8-running-pods-ignored-when-allocated-hypernode-is-recovered"
 	}
 	if os.Getenv("VERIF_C14_DEBUG") != "" {
@@ -272,7 +375,7 @@ func runTrace(in []int64) []int64 {
 		out.sigRec = "C14-D10-subjob-allocated-hypernode-above-its-tier-limit"
 	}
 	lastTrace = out
-	return []int64{1}
+	return obs
 }
 
 func traceLaws(law func(lsel int, lin []int64, sig string)) {
@@ -297,42 +400,66 @@ func genTrace(r *vh.Rng) (in []int64, nontrivial bool, desc any) {
 	depth := int64(r.Range(2, 3))
 	L := r.Range(2, 4)
 	G := r.Range(1, 2)
+	np := r.Range(2, 5)
+	nPlaced := vh.Pick(r, []int{0, 0, 1, 2, 2})
+	if nPlaced > np-1 {
+		nPlaced = np - 1
+	}
+	runLeaf := r.Intn(L)
+	// half of the time the leaf of the placed pods is exactly full: the rest of the job only
+	// fits under a sibling HyperNode
+	full := nPlaced > 0 && r.Chance(1, 2)
 	in = []int64{depth, int64(L)}
-	type nd struct{ leaf int }
 	nodesOf := [][]int64{}
 	idx := int64(0)
 	for i := 0; i < L; i++ {
 		g := int64(r.Range(1, G))
 		k := r.Range(1, 3)
-		in = append(in, g, int64(k))
-		ns := []int64{}
+		caps := []int64{}
 		for j := 0; j < k; j++ {
-			in = append(in, int64(r.Range(1, 2)))
+			caps = append(caps, int64(r.Range(1, 2)))
+		}
+		if full && i == runLeaf {
+			caps = []int64{int64(nPlaced)}
+		}
+		in = append(in, g, int64(len(caps)))
+		in = append(in, caps...)
+		ns := []int64{}
+		for range caps {
 			idx++
 			ns = append(ns, idx)
 		}
 		nodesOf = append(nodesOf, ns)
 	}
 	limit := int64(r.Range(1, int(depth)))
-	np := r.Range(2, 5)
-	policy := int64(vh.Pick(r, []int{0, 1, 1, 2}))
+	policy := int64(vh.Pick(r, []int{0, 0, 1, 2, 2}))
 	sub := int64(r.Range(1, int(limit)))
 	minAvail := int64(r.Range(1, np))
-	runLeaf := r.Intn(L)
-	nRunning := vh.Pick(r, []int{0, 0, 1, 2})
-	if nRunning > np-1 {
-		nRunning = np - 1
-	}
 	annot := int64(0)
-	if nRunning > 0 && r.Chance(3, 4) {
+	if nPlaced > 0 && r.Chance(1, 3) {
 		annot = int64(runLeaf + 1)
 	}
 	in = append(in, 5, limit, minAvail, policy, sub, annot)
 	in = append(in, int64(np))
+	statuses := []int64{}
+	oneStatus := int64(r.Range(1, 4)) // same allocated status for all placed pods, or a mixture
+	mixed := r.Chance(1, 2)
 	for i := 0; i < np; i++ {
 		role := int64(r.Range(1, 2))
-		if i < nRunning {
-			in = append(in, 3, 1, vh.Pick(r, nodesOf[runLeaf]), role)
+		if i < nPlaced {
+			st := oneStatus
+			if mixed {
+				st = int64(r.Range(1, 4))
+			}
+			if r.Chance(1, 10) {
+				st = 5
+			}
+			node := vh.Pick(r, nodesOf[runLeaf])
+			if full {
+				node = nodesOf[runLeaf][0]
+			}
+			statuses = append(statuses, st)
+			in = append(in, 3, st, node, role)
 			continue
 		}
 		nom := int64(0)
@@ -341,5 +468,6 @@ func genTrace(r *vh.Rng) (in []int64, nontrivial bool, desc any) {
 		}
 		in = append(in, 3, 0, nom, role)
 	}
-	return in, true, map[string]any{"depth": depth, "leaves": nodesOf, "limit": limit, "policy": policy, "subLimit": sub, "minAvailable": minAvail, "running": nRunning, "annotation": annot}
+	return in, true, map[string]any{"depth": depth, "leaves": nodesOf, "limit": limit, "policy": policy, "subLimit": sub,
+		"minAvailable": minAvail, "placed": statuses, "placedLeafFull": full, "remembered": annot}
 }
